@@ -90,16 +90,52 @@ fn cpu_ticks() -> u64 {
 static PROGRESS: AtomicU64 = AtomicU64::new(0);
 static CUR: [AtomicUsize; 3] = [AtomicUsize::new(0), AtomicUsize::new(0), AtomicUsize::new(0)];   // grammar, rule, input
 static ACTIVE: AtomicBool = AtomicBool::new(false);
+static CUR_INPUT: std::sync::Mutex<String> = std::sync::Mutex::new(String::new());
 
-/// stdin: one escaped grammar text per line.  stdout (flushed line by line):
+/// Letters for the inputs that come from the grammar itself (besides ALPHA): the characters of its literals (both cases for
+/// case-insensitive ones), the ends of its ranges and one representative of every character-class built-in; at most 3.
+fn derived_letters(g: &[GRule]) -> Vec<String> {
+    let mut out: Vec<String> = vec![];
+    let mut add = |c: char| { let t = c.to_string(); if !ALPHA.contains(&t.as_str()) && !out.contains(&t) { out.push(t); } };
+    for r in g {
+        walk(&r.e, &mut |e| match e {
+            GE::Str(t) | GE::PushLit(t) => t.chars().for_each(&mut add),
+            GE::Ins(t) => t.chars().for_each(|c| { add(c); c.to_lowercase().for_each(&mut add); c.to_uppercase().for_each(&mut add); }),
+            GE::Range(a, z) => { add(*a); add(*z); }
+            GE::Id(n) => match n.as_str() {
+                "ASCII_DIGIT" | "ASCII_NONZERO_DIGIT" | "ASCII_BIN_DIGIT" | "ASCII_OCT_DIGIT" => add('1'),
+                "ASCII_HEX_DIGIT" | "ASCII_ALPHA" | "ASCII_ALPHA_LOWER" | "ASCII_ALPHANUMERIC" | "LETTER" | "ASCII" => add('a'),
+                "ASCII_ALPHA_UPPER" => add('A'),
+                "NEWLINE" => add('\n'),
+                _ => {}
+            },
+            _ => {}
+        });
+    }
+    out.truncate(3);
+    out
+}
+/// all strings over ALPHA up to `maxlen`, then the strings up to length min(maxlen, 3) over ALPHA + `extra` that use a new letter
+fn inputs_for(extra: &[String], maxlen: usize) -> Vec<String> {
+    let mut v = all_strings(&ALPHA, maxlen);
+    if !extra.is_empty() {
+        let mut alpha: Vec<&str> = ALPHA.to_vec();
+        for x in extra { alpha.push(x.as_str()); }
+        for w in all_strings(&alpha, maxlen.min(3)) { if extra.iter().any(|x| w.contains(x.as_str())) { v.push(w); } }
+    }
+    v
+}
+fn letters_field(extra: &[String]) -> String { extra.iter().map(|x| hex(x)).collect::<Vec<_>>().join(",") }
+
+/// stdin: one line per grammar, `<hex letters derived from the grammar, comma separated>\t<escaped grammar text>`.  stdout (flushed line by line):
 ///   B <idx> <rule>            before the runs of a rule   (verbose: `@ <idx> <rule> <hex>` before every run)
 ///   E <idx> term <runs> | E <idx> limit <rule> <hex> | E <idx> reject
-///   W <idx> <rule index> <input index>   written by the watchdog before exit(3): one parse used more than BUDGET_TICKS of CPU
+///   W <idx> <rule index> <input hex>     written by the watchdog before exit(3): one parse used more than BUDGET_TICKS of CPU
 /// Budget of one parse: the call limit (reported by pest as "call limit reached") AND a CPU-time watchdog: `repeat`/`optional`
 /// absorb the refusal that the call limit produces (the C12 defect), so a loop that exhausts the limit may still come back
 /// with an ordinary result; with the limit alone exactly the non-terminating repetitions would go unnoticed.
 fn child(maxlen: usize, verbose: bool) {
-    let inputs = all_strings(&ALPHA, maxlen);
+    let base_inputs = all_strings(&ALPHA, maxlen);
     std::thread::spawn(|| {
         let mut last = (u64::MAX, 0u64);
         loop {
@@ -111,7 +147,8 @@ fn child(maxlen: usize, verbose: bool) {
             if now.saturating_sub(last.1) > BUDGET_TICKS {
                 let o = io::stdout();
                 let mut o = o.lock();
-                let _ = writeln!(o, "W {} {} {}", CUR[0].load(Ordering::SeqCst), CUR[1].load(Ordering::SeqCst), CUR[2].load(Ordering::SeqCst));
+                let cur = CUR_INPUT.lock().map(|g| g.clone()).unwrap_or_default();
+                let _ = writeln!(o, "W {} {} {}", CUR[0].load(Ordering::SeqCst), CUR[1].load(Ordering::SeqCst), hex(&cur));
                 let _ = o.flush();
                 std::process::exit(3);
             }
@@ -120,7 +157,11 @@ fn child(maxlen: usize, verbose: bool) {
     let stdin = io::stdin();
     let out = io::stdout();
     for (idx, line) in stdin.lock().lines().enumerate() {
-        let text = unesc(&line.unwrap());
+        let line = line.unwrap();
+        let (letters, text) = match line.split_once('\t') { Some((l, t)) => (l.to_string(), unesc(t)), None => (String::new(), unesc(&line)) };
+        let extra: Vec<String> = letters.split(',').filter(|h| !h.is_empty()).map(unhex).collect();
+        let own_inputs;
+        let inputs: &Vec<String> = if extra.is_empty() { &base_inputs } else { own_inputs = inputs_for(&extra, maxlen); &own_inputs };
         pest::set_call_limit(None);
         let rules = match pest_meta::parse_and_optimize(&text) { Ok((_, r)) => r, Err(_) => { writeln!(out.lock(), "E {} reject", idx).unwrap(); continue; } };
         let names: Vec<String> = rules.iter().map(|r| r.name.clone()).collect();
@@ -134,6 +175,7 @@ fn child(maxlen: usize, verbose: bool) {
             for (ii, input) in inputs.iter().enumerate() {
                 if verbose { let mut o = out.lock(); writeln!(o, "@ {} {} {}", idx, r, hex(input)).unwrap(); o.flush().unwrap(); }
                 CUR[2].store(ii, Ordering::SeqCst);
+                if let Ok(mut c) = CUR_INPUT.lock() { c.clear(); c.push_str(input); }
                 PROGRESS.fetch_add(1, Ordering::SeqCst);
                 ACTIVE.store(true, Ordering::SeqCst);
                 pest::set_call_limit(NonZeroUsize::new(BUDGET));
@@ -153,13 +195,13 @@ fn child(maxlen: usize, verbose: bool) {
     }
 }
 
-fn spawn_child(texts: &[String], maxlen: usize, verbose: bool) -> (String, String) {
+fn spawn_child(texts: &[(String, String)], maxlen: usize, verbose: bool) -> (String, String) {
     let exe = std::env::current_exe().unwrap();
     let mut ch = Command::new(exe).arg(if verbose { "childv" } else { "child" }).arg(maxlen.to_string())
         .stdin(Stdio::piped()).stdout(Stdio::piped()).stderr(Stdio::null()).spawn().expect("spawn child");
     {
         let mut si = ch.stdin.take().unwrap();
-        let payload: String = texts.iter().map(|t| format!("{}\n", esc(t))).collect();
+        let payload: String = texts.iter().map(|(l, t)| format!("{}\t{}\n", l, esc(t))).collect();
         // the child may die before reading everything: ignore EPIPE
         let _ = si.write_all(payload.as_bytes());
     }
@@ -172,28 +214,27 @@ fn spawn_child(texts: &[String], maxlen: usize, verbose: bool) -> (String, Strin
 }
 
 /// termination observations for a batch of accepted grammars (texts); one result per grammar
-fn termination(texts: &[String], maxlen: usize) -> Vec<String> {
+fn termination(texts: &[(String, String)], maxlen: usize) -> Vec<String> {
     let mut res: Vec<Option<String>> = vec![None; texts.len()];
     let mut start = 0usize;
     while start < texts.len() {
         let (so, status) = spawn_child(&texts[start..], maxlen, false);
         let mut last_b: Option<(usize, String)> = None;
         let mut done = 0usize;
-        let mut watchdog: Option<(usize, String, usize)> = None;
+        let mut watchdog: Option<(usize, String, String)> = None;
         for l in so.lines() {
             let p: Vec<&str> = l.split(' ').collect();
             match p[0] {
                 "B" => last_b = Some((p[1].parse().unwrap(), p[2].to_string())),
                 "E" => { let i: usize = p[1].parse().unwrap(); res[start + i] = Some(p[2..].join(" ")); done = i + 1; }
-                "W" => watchdog = Some((p[1].parse().unwrap(), last_b.clone().map(|x| x.1).unwrap_or_default(), p[3].parse().unwrap())),
+                "W" => watchdog = Some((p[1].parse().unwrap(), last_b.clone().map(|x| x.1).unwrap_or_default(), p[3].to_string())),
                 _ => {}
             }
         }
         if start + done >= texts.len() && status == "exit0" { break; }
-        if let Some((i, rule, ii)) = watchdog {
+        if let Some((i, rule, h)) = watchdog {
             // one parse exceeded the CPU budget: a loop that does not grow the native stack
-            let inputs = all_strings(&ALPHA, maxlen);
-            res[start + i] = Some(format!("budget {} {}", rule, hex(&inputs[ii])));
+            res[start + i] = Some(format!("budget {} {}", rule, h));
             start = start + i + 1;
             continue;
         }
@@ -463,8 +504,63 @@ fn near_miss() -> Vec<Vec<GRule>> {
             out.push(with(vec![nrule("a", seq(body.clone(), id("c"))), nrule("c", seq(body.clone(), id("a")))]));
         }
     }
+    // K. a repetition AWAY from the left edge whose body leads back to the enclosing rule through references only (directly, through one
+    //    or two rules, behind an empty / look-ahead prefix), while the enclosing rule can succeed without consuming through a later
+    //    alternative, `?` or a look-ahead: no left recursion, yet every iteration re-enters the rule and matches empty.  Bounded
+    //    repetitions and an enclosing rule that always consumes are the sound controls (accepted, and run).
+    for g in back_reference_family() { out.push(g); }
     let mut seen = BTreeSet::new();
     out.retain(|g| seen.insert(sexp_grammar(g)));
+    out
+}
+
+/// the shapes of an enclosing rule around a repetition `rep` that sits behind something consuming
+fn enclosing_shapes(rep: &GE) -> Vec<GE> {
+    use GE::*;
+    let guarded = || seq(s("x"), rep.clone());
+    vec![
+        cho(guarded(), s("")), Opt(b(guarded())), cho(guarded(), Pos(b(s("y")))), cho(guarded(), Neg(b(s("x")))), cho(guarded(), id("EOI")),
+        seq(Neg(b(s("y"))), Opt(b(guarded()))), cho(seq(guarded(), Opt(b(s("y")))), s("")), cho(seq(id("ANY"), rep.clone()), Opt(b(s("y")))),
+        cho(seq(s("x"), seq(Opt(b(s("y"))), rep.clone())), s("")), cho(s("y"), cho(guarded(), s(""))), RepMax(b(guarded()), 2),
+        // controls: the enclosing rule always consumes / the nullable alternative comes first (unreachable second alternative)
+        guarded(), cho(guarded(), s("y")), seq(guarded(), s("y")),
+    ]
+}
+/// ways from a repetition body back to rule `a`: (body, extra rules)
+fn ways_back() -> Vec<(GE, Vec<GRule>)> {
+    use GE::*;
+    vec![
+        (id("a"), vec![]),
+        (id("b"), vec![nrule("b", id("a"))]),
+        (id("b"), vec![rule("b", Ty::Silent, id("c")), rule("c", Ty::Atomic, id("a"))]),
+        (seq(s(""), id("b")), vec![nrule("b", id("a"))]),
+        (seq(Neg(b(s("y"))), id("b")), vec![rule("b", Ty::Compound, id("a"))]),
+        (id("b"), vec![nrule("b", seq(id("a"), Opt(b(s("y")))))]),
+        (id("b"), vec![nrule("b", cho(seq(s("y"), s("y")), id("a")))]),
+        (Push(b(id("b"))), vec![rule("b", Ty::NonAtomic, id("a"))]),
+        // control: the way back consumes first
+        (id("b"), vec![nrule("b", seq(s("y"), id("a")))]),
+    ]
+}
+fn back_reference_family() -> Vec<Vec<GRule>> {
+    use GE::*;
+    let mut out = vec![];
+    for (wi, (body, extra)) in ways_back().into_iter().enumerate() {
+        let reps = [Rep(b(body.clone())), Rep1(b(body.clone())), RepMin(b(body.clone()), 2), RepMin(b(body.clone()), 0),
+                    Opt(b(body.clone())), RepX(b(body.clone()), 2), RepMax(b(body.clone()), 2), RepMM(b(body.clone()), 1, 2)];
+        for (ri, rep) in reps.iter().enumerate() {
+            for (si, shape) in enclosing_shapes(rep).into_iter().enumerate() {
+                // the bounded operators only in the first shapes, all rule types of the enclosing rule only for the plain way back
+                if ri >= 4 && si >= 3 { continue; }
+                let mut g = vec![nrule("a", shape.clone())];
+                g.extend(extra.iter().cloned());
+                out.push(g);
+                if wi == 1 && ri < 2 && si < 2 {
+                    for ty in [Ty::Silent, Ty::Atomic, Ty::Compound, Ty::NonAtomic] { let mut g = vec![rule("a", ty, shape.clone())]; g.extend(extra.iter().cloned()); out.push(g); }
+                }
+            }
+        }
+    }
     out
 }
 
@@ -476,6 +572,28 @@ fn rewire(e: &mut GE, r: &mut Rng, names: &[String], p: u64) {
         Pos(x) | Neg(x) | Opt(x) | Rep(x) | Rep1(x) | RepX(x, _) | RepMin(x, _) | RepMax(x, _) | RepMM(x, _, _) | Push(x) | Tag(_, x) | Roe(x) => rewire(x, r, names, p),
         Seq(l, r0) | Cho(l, r0) => { rewire(l, r, names, p); rewire(r0, r, names, p); }
         _ => {}
+    }
+}
+fn inject_back_reference(r: &mut Rng, g: &mut Vec<GRule>, n: usize) {
+    use GE::*;
+    let k = r.below(n as u64) as usize;
+    let j = r.below(n as u64) as usize;
+    let (kn, jn) = (g[k].name.clone(), g[j].name.clone());
+    let target = id(&jn);
+    let body = match r.below(5) { 0 => seq(s(""), target), 1 => seq(Neg(b(s("y"))), target), 2 => Push(b(target)), _ => target };
+    let rep = match r.below(6) { 0 | 1 => Rep(b(body)), 2 => Rep1(b(body)), 3 => RepMin(b(body), r.range(0, 2) as u32), 4 => Opt(b(body)), _ => RepMax(b(body), 2) };
+    let consuming = match r.below(4) { 0 => id("ANY"), 1 => Range('x', 'y'), 2 => s("y"), _ => s("x") };
+    let guarded = if r.chance(1, 4) { seq(consuming, seq(Opt(b(s("y"))), rep)) } else { seq(consuming, rep) };
+    let empty_alt = match r.below(6) { 0 => Pos(b(s("y"))), 1 => Neg(b(s("x"))), 2 => Opt(b(s("y"))), 3 => id("EOI"), _ => s("") };
+    let old = g[k].e.clone();
+    g[k].e = match r.below(6) {
+        0 => cho(guarded, empty_alt), 1 => Opt(b(guarded)), 2 => cho(guarded, old), 3 => seq(guarded, old),
+        4 => cho(seq(guarded, Opt(b(s("y")))), empty_alt), _ => cho(s("y"), cho(guarded, empty_alt)),
+    };
+    if j != k && r.chance(2, 3) {
+        // the referenced rule leads (back) to the enclosing rule
+        let oldj = g[j].e.clone();
+        g[j].e = match r.below(4) { 0 => id(&kn), 1 => cho(id(&kn), oldj), 2 => seq(id(&kn), Opt(b(oldj))), _ => cho(seq(s("y"), s("y")), id(&kn)) };
     }
 }
 fn random_grammar(r: &mut Rng) -> Vec<GRule> {
@@ -491,6 +609,9 @@ fn random_grammar(r: &mut Rng) -> Vec<GRule> {
         rewire(&mut e, r, &names, p);
         GRule { name: nm.clone(), ty: tys[r.below(6) as usize], e }
     }).collect();
+    // a repetition behind something consuming whose body refers to a rule (often one that leads back to the enclosing rule), while
+    // the enclosing rule gets an alternative that succeeds without consuming
+    if r.chance(1, 5) { inject_back_reference(r, &mut g, n); }
     // rare name defects
     match r.below(40) {
         0 => { let k = r.below(g.len() as u64) as usize; let d = g[k].clone(); g.push(d); }
@@ -501,9 +622,229 @@ fn random_grammar(r: &mut Rng) -> Vec<GRule> {
     g
 }
 
+// ------------------------------------------------------------------------------------------------
+// escalation: variants of the grammars on which the real validator and the model differ
+// ------------------------------------------------------------------------------------------------
+fn rep_like(e: &GE) -> Option<&GE> {
+    use GE::*;
+    match e { Rep(x) | Rep1(x) | RepMin(x, _) | RepX(x, _) | RepMax(x, _) | RepMM(x, _, _) | Opt(x) => Some(x), _ => None }
+}
+fn is_leaf_literal(e: &GE) -> bool { matches!(e, GE::Str(_) | GE::Ins(_) | GE::Range(..)) }
+/// pre-order nodes of an expression with "is under a repetition operator"
+fn nodes(e: &GE, under_rep: bool, out: &mut Vec<(GE, bool)>) {
+    use GE::*;
+    out.push((e.clone(), under_rep));
+    match e {
+        Rep(x) | Rep1(x) | RepMin(x, _) | RepX(x, _) | RepMax(x, _) | RepMM(x, _, _) => nodes(x, true, out),
+        Pos(x) | Neg(x) | Opt(x) | Push(x) | Tag(_, x) | Roe(x) => nodes(x, under_rep, out),
+        Seq(l, r) | Cho(l, r) => { nodes(l, under_rep, out); nodes(r, under_rep, out); }
+        _ => {}
+    }
+}
+/// replace the k-th node (pre-order) by f(node)
+fn rewrite(e: &GE, k: &mut isize, f: &mut dyn FnMut(&GE) -> GE) -> GE {
+    use GE::*;
+    if *k == 0 { *k = -1; return f(e); }
+    if *k < 0 { return e.clone(); }
+    *k -= 1;
+    let mut bx = |x: &GE, k: &mut isize| Box::new(rewrite(x, k, f));
+    match e {
+        Pos(x) => Pos(bx(x, k)), Neg(x) => Neg(bx(x, k)), Opt(x) => Opt(bx(x, k)), Rep(x) => Rep(bx(x, k)), Rep1(x) => Rep1(bx(x, k)),
+        RepX(x, n) => RepX(bx(x, k), *n), RepMin(x, n) => RepMin(bx(x, k), *n), RepMax(x, n) => RepMax(bx(x, k), *n), RepMM(x, m, n) => RepMM(bx(x, k), *m, *n),
+        Push(x) => Push(bx(x, k)), Tag(t, x) => Tag(t.clone(), bx(x, k)), Roe(x) => Roe(bx(x, k)),
+        Seq(l, r) => { let l2 = bx(l, k); Seq(l2, bx(r, k)) } Cho(l, r) => { let l2 = bx(l, k); Cho(l2, bx(r, k)) }
+        other => other.clone(),
+    }
+}
+fn at(g: &[GRule], ri: usize, ni: usize, f: &mut dyn FnMut(&GE) -> GE) -> Vec<GRule> {
+    let mut g2 = g.to_vec();
+    let mut k = ni as isize;
+    g2[ri].e = rewrite(&g[ri].e, &mut k, f);
+    g2
+}
+fn fresh(g: &[GRule], stem: &str) -> String {
+    let mut i = 1;
+    loop { let n = format!("{}{}", stem, i); if !g.iter().any(|r| r.name == n) { return n; } i += 1; }
+}
+fn user_rule(g: &[GRule], n: &str) -> bool { g.iter().any(|r| r.name == n) }
+/// index (pre-order, relative to `e`) of the first reference to a user rule / of the first literal leaf
+fn first_node(g: &[GRule], e: &GE, want_ref: bool) -> Option<usize> {
+    let mut v = vec![];
+    nodes(e, false, &mut v);
+    v.iter().position(|(x, _)| if want_ref { matches!(x, GE::Id(n) if user_rule(g, n)) } else { is_leaf_literal(x) })
+}
+
+/// One elementary change.  None when it does not apply at that node.
+#[derive(Clone, Copy, Debug)]
+enum Mu { Guard(u8), Op(u8), WrapRef(u8), Indirect(u8), BackRef(u8), Prefix(u8), Trail, RuleAlt(u8), RuleTy(u8) }
+const N_RULE_ALT: u8 = 6;
+fn apply(g: &[GRule], ri: usize, ni: usize, m: Mu) -> Option<Vec<GRule>> {
+    use GE::*;
+    let mut ns = vec![];
+    nodes(&g[ri].e, false, &mut ns);
+    let (node, under_rep) = ns.get(ni)?.clone();
+    let is_ref = matches!(&node, Id(n) if user_rule(g, n));
+    match m {
+        // something consuming in front of a repetition / reference
+        Mu::Guard(v) => {
+            if rep_like(&node).is_none() && !is_ref { return None; }
+            let c = match v { 0 => s("x"), 1 => id("ANY"), _ => seq(s("x"), Opt(b(s("y")))) };
+            Some(at(g, ri, ni, &mut |e| seq(c.clone(), e.clone())))
+        }
+        // another repetition operator around the same body
+        Mu::Op(v) => {
+            let body = rep_like(&node)?.clone();
+            let n2 = match v { 0 => Rep(b(body)), 1 => Rep1(b(body)), 2 => RepMin(b(body), 2), 3 => RepMin(b(body), 0), 4 => Opt(b(body)), 5 => RepX(b(body), 2), _ => RepMax(b(body), 2) };
+            if n2 == node { return None; }
+            Some(at(g, ri, ni, &mut |_| n2.clone()))
+        }
+        // an operator around a reference
+        Mu::WrapRef(v) => {
+            if !is_ref { return None; }
+            Some(at(g, ri, ni, &mut |e| { let x = b(e.clone()); match v { 0 => Rep(x), 1 => Rep1(x), 2 => RepMin(x, 2), 3 => Opt(x), 4 => Neg(x), 5 => Pos(x), _ => Push(x) } }))
+        }
+        // the reference goes through one or two new rules
+        Mu::Indirect(v) => {
+            let Id(target) = &node else { return None; };
+            if !is_ref { return None; }
+            let f1 = fresh(g, "q");
+            let mut g2 = at(g, ri, ni, &mut |_| id(&f1));
+            match v {
+                0 => g2.push(nrule(&f1, id(target))),
+                1 => g2.push(rule(&f1, Ty::Silent, id(target))),
+                2 => { g2.push(nrule(&f1, id("qq"))); let f2 = fresh(&g2, "q"); let last = g2.len() - 1; g2[last].e = id(&f2); g2.push(rule(&f2, Ty::Atomic, id(target))); }
+                _ => g2.push(nrule(&f1, cho(seq(s("y"), s("y")), id(target)))),
+            }
+            Some(g2)
+        }
+        // a literal under a repetition becomes a reference back to the enclosing rule (or to another rule)
+        Mu::BackRef(v) => {
+            if !is_leaf_literal(&node) || !under_rep { return None; }
+            let t = match v { 0 => g[ri].name.clone(), _ => g[(ri + v as usize) % g.len()].name.clone() };
+            if v > 0 && t == g[ri].name { return None; }
+            Some(at(g, ri, ni, &mut |_| id(&t)))
+        }
+        // an empty / look-ahead prefix
+        Mu::Prefix(v) => {
+            if rep_like(&node).is_none() && !is_ref { return None; }
+            let pfx = match v { 0 => s(""), 1 => Neg(b(s("y"))), _ => Pos(b(s("x"))) };
+            Some(at(g, ri, ni, &mut |e| seq(pfx.clone(), e.clone())))
+        }
+        Mu::Trail => { if rep_like(&node).is_none() && !is_ref { return None; } Some(at(g, ri, ni, &mut |e| seq(e.clone(), Opt(b(s("y")))))) }
+        // the rule can succeed without consuming through a later alternative / `?` / a look-ahead
+        Mu::RuleAlt(v) => {
+            if ni != 0 { return None; }
+            Some(at(g, ri, 0, &mut |e| { let e = e.clone(); match v { 0 => cho(e, s("")), 1 => Opt(b(e)), 2 => cho(e, Pos(b(s("y")))), 3 => seq(Neg(b(s("y"))), Opt(b(e))), 4 => cho(e, id("EOI")), _ => cho(e, Neg(b(s("x")))) } }))
+        }
+        Mu::RuleTy(v) => {
+            if ni != 0 { return None; }
+            let ty = [Ty::Normal, Ty::Silent, Ty::Atomic, Ty::Compound, Ty::NonAtomic][v as usize % 5];
+            if ty == g[ri].ty { return None; }
+            let mut g2 = g.to_vec(); g2[ri].ty = ty; Some(g2)
+        }
+    }
+}
+fn all_moves() -> Vec<Mu> {
+    let mut v = vec![Mu::Trail];
+    for i in 0..3 { v.push(Mu::Guard(i)); v.push(Mu::Prefix(i)); }
+    for i in 0..7 { v.push(Mu::Op(i)); v.push(Mu::WrapRef(i)); }
+    for i in 0..4 { v.push(Mu::Indirect(i)); }
+    for i in 0..3 { v.push(Mu::BackRef(i)); }
+    for i in 0..N_RULE_ALT { v.push(Mu::RuleAlt(i)); }
+    for i in 0..5 { v.push(Mu::RuleTy(i)); }
+    v
+}
+fn size_of(g: &[GRule]) -> usize { g.iter().map(|r| { let mut v = vec![]; nodes(&r.e, false, &mut v); v.len() }).sum() }
+
+/// Variants of one grammar: (1) every single change; (2) the directed product around every repetition / reference -- operator x way back
+/// to the enclosing rule (as it is, through one / two new rules, a literal of the body turned into a reference to the enclosing rule) x
+/// something consuming in front x the enclosing rule made nullable through a later alternative / `?` / look-ahead; (3) random chains
+/// of two to four changes.
+fn variants(g0: &[GRule], r: &mut Rng, random_chains: usize, out: &mut Vec<Vec<GRule>>) {
+    use GE::*;
+    let moves = all_moves();
+    let sites = |g: &[GRule]| -> Vec<(usize, usize)> {
+        let mut v = vec![];
+        for (ri, rl) in g.iter().enumerate() { let mut ns = vec![]; nodes(&rl.e, false, &mut ns); for ni in 0..ns.len() { v.push((ri, ni)); } }
+        v
+    };
+    // (1)
+    for (ri, ni) in sites(g0) { for m in &moves { if let Some(g) = apply(g0, ri, ni, *m) { out.push(g); } } }
+    // (2)
+    for (ri, ni) in sites(g0) {
+        let mut ns = vec![];
+        nodes(&g0[ri].e, false, &mut ns);
+        let node = ns[ni].0.clone();
+        let is_ref = matches!(&node, Id(n) if user_rule(g0, n));
+        let bodies: Vec<GE> = if let Some(x) = rep_like(&node) { vec![x.clone()] } else if is_ref { vec![node.clone()] } else { continue };
+        let body = bodies[0].clone();
+        // ways back
+        let mut ways: Vec<(GE, Vec<GRule>)> = vec![(body.clone(), vec![])];
+        if let Some(k) = first_node(g0, &body, false) { let mut kk = k as isize; let me = g0[ri].name.clone(); ways.push((rewrite(&body, &mut kk, &mut |_| id(&me)), vec![])); }
+        for (bd, _) in ways.clone() {
+            if let Some(k) = first_node(g0, &bd, true) {
+                let mut ns2 = vec![]; nodes(&bd, false, &mut ns2);
+                let Id(target) = ns2[k].0.clone() else { continue };
+                let q1 = fresh(g0, "q");
+                let mut kk = k as isize;
+                let via = rewrite(&bd, &mut kk, &mut |_| id(&q1));
+                ways.push((via.clone(), vec![nrule(&q1, id(&target))]));
+                let mut tmp = g0.to_vec(); tmp.push(nrule(&q1, s("")));
+                let q2 = fresh(&tmp, "q");
+                ways.push((via, vec![rule(&q1, Ty::Silent, id(&q2)), nrule(&q2, id(&target))]));
+            }
+        }
+        for (bd, extra) in &ways {
+            for op in 0..4u8 {
+                let rep = match op { 0 => Rep(b(bd.clone())), 1 => Rep1(b(bd.clone())), 2 => RepMin(b(bd.clone()), 2), _ => match &node { Opt(_) | RepX(..) | RepMax(..) | RepMM(..) => { let mut k0 = 1isize; rewrite(&node, &mut k0, &mut |_| bd.clone()) } _ => continue } };
+                for guard in 0..3u8 {
+                    let placed = match guard { 0 => rep.clone(), 1 => seq(s("x"), rep.clone()), _ => seq(id("ANY"), rep.clone()) };
+                    let mut g1 = at(g0, ri, ni, &mut |_| placed.clone());
+                    g1.extend(extra.iter().cloned());
+                    out.push(g1.clone());
+                    for alt in 0..N_RULE_ALT { if let Some(g2) = apply(&g1, ri, 0, Mu::RuleAlt(alt)) { out.push(g2); } }
+                }
+            }
+        }
+    }
+    // (3)
+    for _ in 0..random_chains {
+        let mut g = g0.to_vec();
+        let steps = 2 + r.below(3);
+        let mut done = 0;
+        for _ in 0..steps * 6 {
+            if done >= steps || size_of(&g) > 40 || g.len() > 6 { break; }
+            let st = sites(&g);
+            let (ri, ni) = *r.pick(&st);
+            if let Some(g2) = apply(&g, ri, ni, *r.pick(&moves)) { g = g2; done += 1; }
+        }
+        if done >= 2 { out.push(g); }
+    }
+}
+
+fn escalate(path: &str, seed: u64, cap: usize) -> (Vec<Vec<GRule>>, usize) {
+    let text = std::fs::read_to_string(path).unwrap_or_default();
+    let mut starts: Vec<Vec<GRule>> = text.lines().filter(|l| !l.trim().is_empty()).filter_map(|l| catch(|| parse_sexp_grammar(l.trim())).ok()).collect();
+    starts.retain(|g| size_of(g) <= 30 && g.len() <= 5);
+    let mut r = Rng::new(seed);
+    let mut seen = BTreeSet::new();
+    let mut out: Vec<Vec<GRule>> = vec![];
+    // round robin over the starting grammars so that the cap does not cut whole families off
+    let mut per_start: Vec<Vec<Vec<GRule>>> = starts.iter().map(|g| { let mut v = vec![g.clone()]; variants(g, &mut r, 60, &mut v); v }).collect();
+    for v in per_start.iter_mut() { v.sort_by_key(|g| size_of(g)); v.reverse(); }   // pop() takes the smallest first
+    loop {
+        let mut any = false;
+        for v in per_start.iter_mut() {
+            for _ in 0..8 { if let Some(g) = v.pop() { any = true; if out.len() < cap && seen.insert(sexp_grammar(&g)) { out.push(g); } } }
+        }
+        if !any || out.len() >= cap { break; }
+    }
+    (out, starts.len())
+}
+
 fn emit_all(gs: &[Vec<GRule>], maxlen: usize, w: &mut impl Write) -> (u64, u64, u64, u64, u64) {
     let x = extras() as u8;
-    let mut accepted: Vec<(String, String)> = vec![];   // (sexp, text) of accepted stack-free grammars
+    let mut accepted: Vec<(String, String, String)> = vec![];   // (sexp, text, letters derived from the grammar) of accepted stack-free grammars
     let (mut n, mut ok, mut nontriv) = (0u64, 0u64, 0u64);
     let mut seen_nt = BTreeSet::new();
     for g in gs {
@@ -513,7 +854,7 @@ fn emit_all(gs: &[Vec<GRule>], maxlen: usize, w: &mut impl Write) -> (u64, u64, 
         writeln!(w, "V|{}|{}\t{}", x, sx, v).unwrap();
         n += 1;
         if nontrivial(g) && seen_nt.insert(sx.clone()) { nontriv += 1; }
-        if v == "ok" { ok += 1; if !uses_stack(g) { accepted.push((sx, text)); } }
+        if v == "ok" { ok += 1; if !uses_stack(g) { accepted.push((sx, text, letters_field(&derived_letters(g)))); } }
     }
     w.flush().unwrap();
     let mut runs = 0u64; let mut bad = 0u64; let mut budgets = 0u64; let mut skipped = 0u64;
@@ -521,9 +862,9 @@ fn emit_all(gs: &[Vec<GRule>], maxlen: usize, w: &mut impl Write) -> (u64, u64, 
         // every exhausted CPU budget costs BUDGET_TICKS of CPU: once a run has produced enough of them (it fails anyway)
         // the remaining grammars are not executed any more, so that a broken tree cannot make the check run for minutes
         if budgets >= MAX_BUDGET_WITNESSES { skipped += chunk.len() as u64; continue; }
-        let texts: Vec<String> = chunk.iter().map(|(_, t)| t.clone()).collect();
+        let texts: Vec<(String, String)> = chunk.iter().map(|(_, t, l)| (l.clone(), t.clone())).collect();
         let res = termination(&texts, maxlen);
-        for ((sx, _), o) in chunk.iter().zip(res.iter()) {
+        for ((sx, _, _), o) in chunk.iter().zip(res.iter()) {
             writeln!(w, "T|{}|{}|{}\t{}", x, maxlen, sx, o).unwrap();
             if let Some(k) = o.strip_prefix("term ") { runs += k.parse::<u64>().unwrap_or(0); } else { bad += 1; if o.starts_with("budget") { budgets += 1; } }
         }
@@ -551,6 +892,12 @@ fn main() {
         "nearmiss" => near_miss(),
         "random" => { let count = arg_u64(2, 500); let mut rng = Rng::new(arg_u64(3, 0)); (0..count).map(|_| random_grammar(&mut rng)).collect() }
         "one" => vec![parse_sexp_grammar(&arg(2))],
+        "escalate" => {
+            // FILE = grammars (s-expressions, one per line) on which the real validator and the model differ
+            let (gs, starts) = escalate(&arg(2), arg_u64(4, 1), arg_u64(5, 12000) as usize);
+            writeln!(w, "#NOTE\tescalation_starts={}\tescalation_variants={}", starts, gs.len()).unwrap();
+            gs
+        }
         "names" => { writeln!(w, "{}", pest::unicode::unicode_property_names().collect::<Vec<_>>().join(" ")).unwrap(); return; }
         "probe" => {
             // is check_expr repaired?  the four witnesses of DESIGN.md section 4 row 2 must be rejected
@@ -562,9 +909,9 @@ fn main() {
             writeln!(w, "#PROBE\tfix_leftrec={}\tfix_tag={}\twitnesses_rejected={}\tvalid_recursion_ok={}", (rejected == ws.len()) as u8, tag, rejected, ok_valid as u8).unwrap();
             return;
         }
-        _ => { eprintln!("usage: c06 nearmiss [MAXLEN] | random COUNT SEED [MAXLEN] | one SEXP [MAXLEN] | probe"); std::process::exit(2); }
+        _ => { eprintln!("usage: c06 nearmiss [MAXLEN] | random COUNT SEED [MAXLEN] | one SEXP [MAXLEN] | escalate FILE [MAXLEN] [SEED] [CAP] | probe"); std::process::exit(2); }
     };
-    let maxlen = match mode.as_str() { "nearmiss" => arg_u64(2, 4), "one" => arg_u64(3, 4), _ => arg_u64(4, 4) } as usize;
+    let maxlen = match mode.as_str() { "nearmiss" => arg_u64(2, 4), "one" | "escalate" => arg_u64(3, 4), _ => arg_u64(4, 4) } as usize;
     let (n, ok, nontriv, runs, bad) = emit_all(&gs, maxlen, &mut w);
     writeln!(w, "#SUMMARY\tevaluations={}\tdistinct_nontrivial={}\taccepted={}\tvm_runs={}\tnonterminating={}", n, nontriv, ok, runs, bad).unwrap();
 }
